@@ -25,7 +25,12 @@ Tie to /repo, every run:
      on every commentable construct (incl. the rotation programs: every construct of the full program carries every
      IDL spelling of a backslash run 1..6 before `u002a/` / `u000a`, in ordinary text and in code spans; the `split` programs:
      every construct carries every (invisible character x split sequence) line; the `length` programs: every construct is
-     deprecated with a message of the length grid); the files are read back from disk as bytes; token streams (own tokenizer `ctok12`, cross-checked against the Lean fragment)
+     deprecated with a message of the length grid; the `sinks` programs: every comment sink *class* of every construct — the
+     description, a `@param` line for every parameter of the error code / method / function the comment stands on, `@returns`,
+     `@throws`, `@deprecated <reason>` — carries each text of `SINK_TEXTS` (ends in a backslash run of either parity, `*/`, `/*`,
+     `//`, unicode-escape closer / line feed, quotes, code spans, line-break characters, markup), with and without a deprecation
+     annotation next to it, in two line orders); the first failing program of a shape is reduced (`shrink_program`) to the
+     comment line and the declarations that matter; the files are read back from disk as bytes; token streams (own tokenizer `ctok12`, cross-checked against the Lean fragment)
      must be equal after dropping comments and deprecation annotations; every deprecation literal decodes to a message
      of the AST. Compilers as judges: g++ -fsyntax-only / javac on the commented variant (corpus witnesses + 2 programs in
      the quick tier, 40 in the thorough tier); g++ -E / javac as judges of the lexing fragment itself (every run).
@@ -423,7 +428,7 @@ def report(ctx, key, what, replay_body):
     function-level grid does not crowd out the file-level witnesses; every hit is counted in stats['violation_hits']"""
     hits = ctx.stats.setdefault("violation_hits", {})
     hits[key] = hits.get(key, 0) + 1
-    if hits[key] <= 4:
+    if hits[key] <= 4 or getattr(ctx, "is_probe", False):
         ctx.report(key, what, replay_body)
 
 
@@ -769,6 +774,66 @@ def rotation_programs(nprog: int, variants=None, per=None, tagtexts=None, always
     return out
 
 
+# Texts for the `sinks` programs: each is one IDL documentation line that a compiler gives a meaning to if it reaches *any*
+# kind of comment (block, `//` line, trailing `///<` line, Javadoc) or string literal without the treatment of its sink.
+# Seed-independent; the text that ends in a backslash must stay the last thing on its line.
+SINK_TEXTS = [
+    ("bs-eol", "listed in docs" + BS + "errors" + BS),
+    ("closer", "ends */ int injected; /* here"),
+    ("bs-eol-run", "share C:" + BS * 2 + "a" + BS * 4),                     # Markdown halves the run: both parities reach the sinks
+    ("bs-u-closer", "x " + BS + "u002a/ int injected; /* y"),
+    ("bs-u-newline", "x " + BS + "u000a int injected;"),
+    ("opener", "starts /* and // never ends"),
+    ("quote", 'say "hi" ' + BS + '" );int injected;(" or ' + "'c'"),
+    ("code-closer", "code `*/ int injected; /*` span"),
+    ("code-bs-u", "code `" + BS + "u002a/ int injected; /*` span and a path C:" + BS + "users" + BS),
+    ("line-break", "a\x0cint b; int c;\x85int d;\x1dint e; " + BS),
+    ("markup", "<b>&#42;/ &amp; **/ __x__ [l](http://u/*/) {@code */} " + BS + "param z */"),
+    ("bs-eol-3", "odd run at the end x" + BS * 3),
+]
+
+
+def slot_params(tmpl: str, slot: str) -> list[str]:
+    """names of the parameters of the construct a comment slot stands on (error code / method / function parameters)"""
+    m = re.search(re.escape(slot) + r"[^\n]*?\(([^)\n]*)\)", tmpl)
+    return re.findall(r"(\w+)\s*:", m.group(1)) if m else []
+
+
+def sink_programs(which=None, orders=(0, 1)):
+    """Every comment *sink class* of every construct of the full closed-world program populated at once with one adversarial
+    text of `SINK_TEXTS`: the description itself, a `@param <name> <text>` line for *every* parameter of the construct the
+    comment stands on (error code, method and function parameters: the only way such a parameter gets a comment) and for a
+    name that is no parameter, `@returns <text>`, `@throws err <text>`, and `@deprecated <text>` on every other construct
+    (which ones: parity of construct number + program number, so that every sink is seen with and without a deprecation
+    annotation next to it). Two line orders: description first / tag lines first. One program per (text, order):
+    the failure key names the text class. Seed-independent."""
+    out = []
+    for t, (tname, txt) in enumerate(SINK_TEXTS):
+        if which is not None and t not in which:
+            continue
+        for order in orders:
+            bare, commented, sidx = [], [], 0
+            for name, deps, tmpl in DECLS:
+                b = c = tmpl
+                for slot in ("{C}", "{C1}", "{C2}", "{C3}", "{C4}"):
+                    if slot not in tmpl:
+                        continue
+                    m = re.search(r"^" + re.escape(slot) + r"( *)", c, flags=re.M)
+                    indent = m.group(1) if m else ""
+                    tags = ["@param %s %s" % (p, txt) for p in slot_params(tmpl, slot) + ["nosuch"]]
+                    tags += ["@returns " + txt, "@throws err " + txt]
+                    if (sidx + t + order) % 2 == 0:
+                        tags.insert((sidx // 2) % (len(tags) + 1), "@deprecated " + txt)
+                    lines = [txt] + tags if order == 0 else tags + ["", txt]
+                    b = b.replace(slot, "")
+                    c = c.replace(slot, "".join((f"{indent}# {l}" if l else f"{indent}#") + "\n" for l in lines))
+                    sidx += 1
+                bare.append(b)
+                commented.append(c)
+            out.append((tname, "".join(bare), "".join(commented)))
+    return out
+
+
 def file_lang(path: str):
     if path.endswith(".java"):
         return "java"
@@ -833,6 +898,10 @@ def file_level(ctx, corpus):
         nlen = ctx.n(4, -(-len(msgs) // NSLOTS))
         families.append(("length", rotation_programs(nlen, variants=docs, per=1, tagtexts=msgs, always_deprecated=True, stride=5,
                                                      first=(ctx.seed * nlen) % max(1, -(-len(msgs) // NSLOTS)))))
+        # every sink class (description, @param of every parameter, @returns, @throws, @deprecated) of every construct carries
+        # each text of `SINK_TEXTS` (quick: one line order per text, alternating with the seed; thorough: both)
+        families.append(("sinks", [(b, c) for t in range(len(SINK_TEXTS))
+                                   for _, b, c in sink_programs({t}, orders=((t + ctx.seed) % 2,) if ctx.quick else (0, 1))]))
         for mode, progs in families:
             for bare, commented in progs:
                 jobs.append({"files": {"main.djinni": bare}, "root": "main.djinni"})
@@ -880,6 +949,8 @@ def file_level(ctx, corpus):
                 if f0[path] != f1[path]:
                     differing.append({"file": path, "why": "unknown file kind differs"})
                 continue
+            if getattr(ctx, "is_probe", False) and f0[path] == f1[path]:
+                continue        # (candidates of the reduction: only the files the comment reaches are read)
             s0, m0, p0 = skeleton(path, f0[path])
             s1, m1, p1 = skeleton(path, f1[path])
             if p0 or m0:
@@ -908,9 +979,16 @@ def file_level(ctx, corpus):
         ctx.stat("programs_" + meta["mode"])
         if differing:
             targets = sorted({d["file"].split("/")[0] for d in differing})
-            report(ctx, "program:" + program_cause(meta["commented"], differing) + ":" + "+".join(targets),
-                       "comments change generated code (not only documentation / deprecation annotations)",
-                       {"input": inp, "differing": differing[:8]})
+            key = "program:" + program_cause(meta["commented"], differing) + ":" + "+".join(targets)
+            body = {"input": inp, "differing": differing[:8]}
+            # the first program of a failure shape is reduced to the comment line(s) and declaration(s) that matter
+            seen = ctx.stats.setdefault("violation_hits", {})
+            if not getattr(ctx, "is_probe", False) and key not in seen and ctx.stats.get("shrink_rounds", 0) < 3:
+                small = shrink_program(ctx, inp)
+                if small is not None:
+                    seen.setdefault(key, 0)
+                    key, body = small[0], dict(small[1], reduced_from={"key": key, "commented": meta["commented"], "differing": differing[:3]})
+            report(ctx, key, "comments change generated code (not only documentation / deprecation annotations)", body)
         else:
             judged.append((meta, f1))
     # the tokenizer used above against the Lean fragment, on the real generated files
@@ -925,6 +1003,116 @@ def file_level(ctx, corpus):
                 if mine != lean:
                     breaks.append({"what": "ctok12 vs Lang/CLex on a generated file", "file": path, "text": txt[:2000]})
     return breaks, judged
+
+
+class Probe:
+    """a context for `file_level` that generates and judges candidate programs without reporting or counting them"""
+    is_probe = True
+
+    def __init__(self, ctx, tmp):
+        self._ctx, self.tmp, self.hits, self.stats = ctx, tmp, [], {}
+
+    def n(self, quick, thorough):
+        return 0
+
+    def report(self, key, what, body, **kw):
+        self.hits.append((key, body))
+
+    def count(self, **kw):
+        pass
+
+    def stat(self, *a, **kw):
+        pass
+
+    def __getattr__(self, name):
+        return getattr(self._ctx, name)
+
+
+def is_comment_line(line: str) -> bool:
+    return line.lstrip().startswith("#")
+
+
+def probe_programs(ctx, pairs):
+    """-> for every (bare, commented): None if the comments leave the code alone, else (key, replay body)"""
+    ctx.stats["shrink_rounds"] = ctx.stats.get("shrink_rounds", 0) + 1
+    probe = Probe(ctx, ctx.tmp / ("shrink%d" % ctx.stats["shrink_rounds"]))
+    try:
+        file_level(probe, [{"kind": "program", "bare": b, "commented": c} for b, c in pairs])
+    except common.Infra:
+        return [None] * len(pairs)
+    finally:
+        shutil.rmtree(probe.tmp, ignore_errors=True)
+    out = []
+    for b, c in pairs:
+        hit = [(k, body) for k, body in probe.hits if body.get("input", {}).get("commented") == c and body["input"].get("bare") == b]
+        out.append(hit[0] if hit else None)
+    return out
+
+
+def shrink_program(ctx, inp):
+    """Reduce a program whose comments change the code: (1) to the comment of one construct, (2) to one line of it, (3) to
+    the declarations that comment needs (the declaration it stands in and what that one refers to). Each step keeps a
+    candidate only if the real generators, run on it, still fail the token-stream comparison. -> (key, body) | None"""
+    bare, commented = inp["bare"], inp["commented"]
+    lines = commented.split("\n")
+    if "\n".join(l for l in lines if not is_comment_line(l)) != bare:
+        return None
+    best = None
+
+    def keep_only(keep):
+        return "\n".join(l for i, l in enumerate(lines) if not is_comment_line(l) or i in keep)
+
+    # (1) runs of consecutive comment lines = the comment of one construct
+    blocks, cur = [], []
+    for i, l in enumerate(lines):
+        if is_comment_line(l):
+            cur.append(i)
+        elif cur:
+            blocks.append(cur)
+            cur = []
+    if cur:
+        blocks.append(cur)
+    res = probe_programs(ctx, [(bare, keep_only(set(blk))) for blk in blocks])
+    found = next(((blk, r) for blk, r in zip(blocks, res) if r), None)
+    if found is None:
+        return None
+    blk, best = found
+    # (2) one line of that comment
+    if len(blk) > 1:
+        res = probe_programs(ctx, [(bare, keep_only({i})) for i in blk])
+        one = next(((i, r) for i, r in zip(blk, res) if r), None)
+        if one is not None:
+            blk, best = [one[0]], one[1]
+    # (3) the declaration the comment stands in + what it depends on
+    chunks = [(name, deps, re.sub(r"\{C\d?\}", "", tmpl)) for name, deps, tmpl in DECLS]
+    present = [(name, deps, ch) for name, deps, ch in chunks if ch in bare]
+    if "".join(ch for _, _, ch in present) == bare:
+        j = sum(1 for l in lines[:blk[0]] if not is_comment_line(l))      # the comment stands before line j of `bare`
+        start, owner = 0, None
+        for name, deps, ch in present:
+            nl = ch.count("\n")
+            if start <= j < start + nl:
+                owner, rel = name, j - start
+                break
+            start += nl
+        if owner:
+            deps_of = {name: deps for name, deps, _ in chunks}
+            need, todo = set(), [owner]
+            while todo:
+                x = todo.pop()
+                if x not in need:
+                    need.add(x)
+                    todo += deps_of[x]
+            if len(need) < len(present):
+                kept = [(name, ch) for name, _, ch in present if name in need]
+                b2 = "".join(ch for _, ch in kept)
+                at = sum(ch.count("\n") for name, ch in kept[:[name for name, _ in kept].index(owner)]) + rel
+                l2 = b2.split("\n")
+                c2 = "\n".join(l2[:at] + [lines[i] for i in blk] + l2[at:])
+                r = probe_programs(ctx, [(b2, c2)])[0]
+                if r:
+                    best = r
+    return best
 
 
 def program_cause(idl: str, differing) -> str:
@@ -1086,7 +1274,7 @@ def run(ctx):
     ctx.coverage["rule"] = ("function level: distinct = (style, indented?, set of adversarial features in the text) resp. (builder, value kind, features); "
                             "function level also: grid of backslash runs 1..6 x continuations (unicode escapes, line ends, closers, quotes) x position for every generator / builder; "
                             "function level also: grid of 30 invisible / later-removable characters between the halves of every neutralised / escaped sequence; grid of lengths 7..1000 (thorough: 1..69, 2^k±1 up to 4096) x 12 shapes; every text is judged as the bytes the real file writer puts on disk; "
-                            "file level: distinct = (mode, targets with deprecation literals, features of the comments); 12 (36) rotation programs put every backslash-run spelling on every commentable construct, 5 (15) `split` programs every invisible-character line, 4 (all) `length` programs the length grid of deprecation messages; non-trivial = non-empty text / a program whose commented variant differs")
+                            "file level: distinct = (mode, targets with deprecation literals, features of the comments); 12 (36) rotation programs put every backslash-run spelling on every commentable construct, 5 (15) `split` programs every invisible-character line, 4 (all) `length` programs the length grid of deprecation messages, 12 (24) `sinks` programs every text of SINK_TEXTS on every sink class (description, @param of every parameter, @returns, @throws, @deprecated) of every construct; non-trivial = non-empty text / a program whose commented variant differs")
     ctx.assumptions += [
         "no assumption on the rendered comment text or the deprecation message: the theorems hold for every string (the comment filter splits at '\\r' and every other line boundary, string_literal escapes them)",
         "closed feature set of the file-level generator: the eight declarations of `DECLS` (enum, flags with none/all last, record of i32/string/list<i32>/enum, "
